@@ -162,6 +162,15 @@ MUTANTS = [
      "if( std::size_t( in.current() - start ) > Maximum ) {", "if( std::size_t( in.current() - start ) > Maximum + 1 ) {", ["C18"], "check_bytes lets one byte too many through"),
     ("m58-discard-threshold", I + "buffer_input.hpp",
      "if( m_current.data > m_buffer.get() + Chunk ) {", "if( m_current.data > m_buffer.get() + 2 * Chunk ) {", ["C07"], "discard() a no-op more often than documented: overflow_error inside the guarantee"),
+    # combinators that stop dispatching through Control< Child >::match: a switch attached to the direct child is lost
+    ("m65-enable-bypasses-child-control-match", I + "internal/enable.hpp",
+     "return Control< Rule >::template match< apply_mode::action, M, Action, Control >( in, st... );", "return TAO_PEGTL_NAMESPACE::match< Rule, apply_mode::action, M, Action, Control >( in, st... );", ["C13"], "enable<R> skips Action<R>::match of R"),
+    ("m66-state-bypasses-child-control-match", I + "internal/state.hpp",
+     "            if( Control< Rule >::template match< A, M, Action, Control >( in, s ) ) {\n               s.success", "            if( TAO_PEGTL_NAMESPACE::match< Rule, A, M, Action, Control >( in, s ) ) {\n               s.success", ["C13"], "state<S,R> skips Action<R>::match of R (one of the two branches)"),
+    ("m67-action-bypasses-child-control-match", I + "internal/action.hpp",
+     "return Control< Rule >::template match< A, M, Action, Control >( in, st... );", "return TAO_PEGTL_NAMESPACE::match< Rule, A, M, Action, Control >( in, st... );", ["C13"], "action<A,R> skips NewAction<R>::match of R"),
+    ("m68-must-bypasses-child-control-match", I + "internal/must.hpp",
+     "if( !Control< Rule >::template match< A, rewind_mode::optional, Action, Control >( in, st... ) ) {", "if( !TAO_PEGTL_NAMESPACE::match< Rule, A, rewind_mode::optional, Action, Control >( in, st... ) ) {", ["C13"], "must<R> skips Action<R>::match of R"),
 ]
 
 CHECK_TARGETS = {"C02": ["core"], "C03": ["core"], "C05": ["core", "io"], "C07": ["core", "io"], "C08": ["core", "cov"], "C12": ["tree"], "C13": ["core", "io"], "C18": ["core"]}
